@@ -69,6 +69,35 @@ def copied_members(f, own, src):
     return out
 
 
+def copy_modes(f, member, src):
+    """how f takes `member` from the source: {'clone'} (a new object: clone()/new/make_shared/make_unique of the source's member),
+    {'share'} (the source's pointer itself), both, or empty when the form is not read"""
+    out = set()
+
+    def mode(e):
+        e0 = strip(e)
+        if e0 is None or not _mentions(e0, src):
+            return
+        if any(is_call(x) and (x["callee"]["name"] in ("clone", "make_shared", "make_unique") or x["k"] == "CXXNewExpr") for x in walk(e0)) or any(x["k"] == "CXXNewExpr" for x in walk(e0)):
+            out.add("clone")
+        else:
+            t = render(e0)
+            if t.endswith("." + member) or t.endswith("->" + member) or ("." + member + ")") in t:
+                out.add("share")
+    for i in f.rec.get("inits", []):
+        if i.get("fname") == member and i.get("expr") is not None:
+            mode(f.nodes.get(i["expr"]) if isinstance(i["expr"], int) else i["expr"])
+    for n in f.all_nodes():
+        tgt = rhs = None
+        if n["k"] == "BinaryOperator" and n["op"] == "=":
+            tgt, rhs = kids(n)[0], kids(n)[1]
+        elif is_call(n) and n["callee"]["name"] in ("operator=", "reset") and "obj" in n and f.args(n):
+            tgt, rhs = f.obj(n), f.args(n)[0]
+        if tgt is not None and _field_of(tgt) == member:
+            mode(rhs)
+    return out
+
+
 def base_copies(f, src, bases):
     """base classes that f copies from src: initialiser 'Base(src)' or call 'Base::operator=(src)'"""
     out = set()
@@ -110,6 +139,79 @@ def check(chk, fb, rid, select, floor=1, skip=()):
                         witness={"history": "copy-construct from an object in a non-default state"})
         else:
             chk.proved(rid, A.key, "copy-assign-agree", A.loc(), "copy constructor and operator= copy the same members %s" % sorted(in_k))
+        # (e) owning pointers: the two copy functions agree on clone versus share
+        for fl in c["fields"]:
+            if fl["name"] not in (in_k & in_a) or not any(t in fl.get("ty", "") for t in ("shared_ptr", "unique_ptr")):
+                continue
+            mk, ma = copy_modes(K, fl["name"], sk), copy_modes(A, fl["name"], sa)
+            if mk == {"clone"} and ma == {"share"}:
+                chk.refuted(rid, A.key, "assign-clones:" + fl["name"], A.loc(),
+                            "%s::operator= takes the source's pointer '%s' itself while the copy constructor clones the object: after 'a = b' the two objects share one %s and a change made through one shows in the other" % (
+                                short, fl["name"], fl["ty"].split("<")[-1].split(">")[0].split("::")[-1]),
+                            witness={"history": "a = b; modify the member through b; observe a"})
+            elif mk == {"share"} and ma == {"clone"}:
+                chk.refuted(rid, K.key, "ctor-clones:" + fl["name"], K.loc(),
+                            "the copy constructor of %s takes the source's pointer '%s' itself while operator= clones the object: a copy shares state with its source" % (short, fl["name"]),
+                            witness={"history": "copy-construct; modify the member through the source; observe the copy"})
+            elif mk and mk == ma:
+                chk.proved(rid, A.key, "copy-mode:" + fl["name"], A.loc(), "both copy functions %s '%s'" % ("clone" if mk == {"clone"} else "share", fl["name"]))
+        # (f) the same fix-up work in both: a mutator applied inside a loop (re-targeting listeners, re-binding observers) runs over
+        # the same container in the copy constructor and in operator=
+        from .c02 import _loop_range
+
+        def fixups(fn):
+            out = {}
+            for x in fn.calls():
+                nm = x["callee"]["name"]
+                if not (nm.startswith(("add", "remove", "set", "register", "unregister")) and x["callee"].get("inrepo")):
+                    continue
+                lp = fn.enclosing(x, ("ForStmt", "CXXForRangeStmt", "WhileStmt"))
+                if lp is None:
+                    continue
+                inner = lp
+                r = _loop_range(fn, inner, None)
+                if r[0] == "whole":
+                    out.setdefault(nm, set()).add(r[1].replace("this.", "").replace("this->", ""))
+                else:
+                    m_ = __import__("re").search(r"< ([\w\.\(\)_>-]+?)(\.size\(\))?\)$", r[1])
+                    out.setdefault(nm, set()).add(m_.group(1).replace("this.", "") if m_ else "?" + r[1][:40])
+            return out
+        fk, fa = fixups(K), fixups(A)
+        for nm in sorted(set(fk) & set(fa)):
+            if any(x.startswith("?") for x in fk[nm] | fa[nm]):
+                continue
+            norm = lambda S: {x.replace(sk + ".", "<src>.").replace(sa + ".", "<src>.") for x in S}
+            if norm(fk[nm]) != norm(fa[nm]):
+                chk.refuted(rid, K.key, "fixup-range:" + nm, K.loc(),
+                            "the copy constructor of %s applies %s() over %s while operator= applies it over %s: the two copy functions do the same fix-up on different sets of elements, so one of them leaves elements pointing at the source object" % (
+                                short, nm, sorted(fk[nm]), sorted(fa[nm])),
+                            witness={"history": "copy-construct and assign from the same source; compare which elements were re-targeted"})
+            else:
+                chk.proved(rid, A.key, "fixup-range:" + nm, A.loc(), "%s() runs over %s in both copy functions" % (nm, sorted(fa[nm])))
+        # (g) re-binding to the new owner: 'member->setX(this)' made by one copy function is made by the other as well (a cloned helper
+        # object that keeps pointing at the source object polls / notifies the wrong owner)
+        def rebinds(fn):
+            out = set()
+            for x in fn.calls():
+                if "obj" in x and any(strip(a)["k"] == "CXXThisExpr" for a in fn.args(x)):
+                    fld = _field_of(fn.obj(x))
+                    if fld is None:
+                        o = strip(fn.obj(x))
+                        while o is not None and is_call(o) and o["callee"]["name"] in ("operator->", "operator*", "get") and "obj" in o:
+                            o = strip(fn.obj(o))
+                        fld = _field_of(o) if o is not None else None
+                    if fld in own:
+                        out.add((fld, x["callee"]["name"]))
+            return out
+        rk, ra = rebinds(K), rebinds(A)
+        for fld, meth in sorted(rk ^ ra):
+            who, other = (A, "the copy constructor") if (fld, meth) in rk else (K, "operator=")
+            chk.refuted(rid, who.key, "rebind:%s.%s" % (fld, meth), who.loc(),
+                        "%s re-binds the copied '%s' to the new object with %s(this); %s of %s does not: its '%s' keeps referring to the object it was copied from" % (
+                            other, fld, meth, "operator=" if who is A else "the copy constructor", short, fld),
+                        witness={"history": "copy the object, then use the copy while the original changes (or is destroyed)"})
+        for fld, meth in sorted(rk & ra):
+            chk.proved(rid, A.key, "rebind:%s.%s" % (fld, meth), A.loc(), "both copy functions call %s->%s(this)" % (fld, meth))
         # (c) re-population without reset
         for fld in sorted(own):
             pushes = [x for x in A.calls() if x["callee"]["name"] in ("push_back", "emplace_back", "insert", "emplace") and "obj" in x and render(A.obj(x)) == fld]
